@@ -60,5 +60,9 @@ REGISTRY = {
                     "answer judged (own token present, no foreign token). spec/DocAttach.tla models per-declaration attachment; every order of four documented elements x four styles is run end to end and "
                     "C13_Trace judges, per documentation comment, which element/tag each unique token sits on, the description lines, and equality of comments across the structured styles.",
             "ref": "DESIGN.md section 7 C13", "note": BASE_NOTE + " Tokens are extracted from answers/comments by the harness.", "technique": TECH},
+    "C11": {"text": "spec/Closure.tla extends the topology universe with a second module that references the (possibly moved, aliased, module-re-exported) class in five positions, imports computed "
+                    "from final homes; TLC checks closure and import resolution for all 866 scenarios and emits them; they are packed, run with naming conversion off and on (plus foreign and generic foreign "
+                    "classes), and C11_Trace resolves every type/superclass reference and every import of every stub file against the declarations of all stub files of the run.",
+            "ref": "DESIGN.md section 7 C11", "note": BASE_NOTE + " 20 known-finding signatures (alias re-exports, module re-exports, moved class used in its own module).", "technique": TECH},
 }
 NOT_APPLICABLE = {}
